@@ -13,7 +13,7 @@ RULE = ("all (numerator, denominator) in {1..7,12}x{2,4,8,16} x durations {0, ca
         "signature event is involved")
 ASSUMPTIONS = ["a redundant repeat of the matching signature may be accepted or rejected (statement is silent)"]
 REQUIRED_FLAGS = ["hanging_note_ons", "after_history", "padded", "rejected_too_long", "rejected_conflicting_signature", "rejected_equal_length_signature", "accepted_exact", "signature_mid_bar",
-                  "copy_compared"]
+                  "copy_compared", "dense_bar", "signature_deep_inside_a_dense_bar"]
 
 SIGCFG = ["none", "m0", "m1", "c0", "c1", "m0m1", "m0c1", "c0m1", "d0", "e0", "e1", "m0e1"]
 
@@ -32,6 +32,9 @@ def units(ctx):
             yield (n, d)
     yield from hist.hist_units()
     yield ("long", 0)
+    for n, d in ((4, 4), (3, 4), (12, 8), (3, 2)):
+        for v in (1, 2, 3, 4, 6, 8):
+            yield ("dense", n, d, v)
 
 
 def gen_cases(unit, ctx):
@@ -45,6 +48,23 @@ def gen_cases(unit, ctx):
                     for sc in ("none", "m0", "c1", "e0"):
                         for build in ("abs", "rel"):
                             yield {"n": n, "d": d, "dur": dur, "notes": [x for x in ns if x[0] + x[1] <= dur], "sig": sc, "key": "Eb", "build": build}
+        return
+    if unit[0] == "dense":
+        # scale inside one bar: chords of v voices every second tick (up to ~800 stored messages), 0-2 ticks of leading
+        # rest (shifts every message index), slightly short bars (padding), signatures deep inside the bar
+        _, n, d, v = unit
+        cap = 96 * n // d
+        conflict = [n + 1, d]
+        for lead in (0, 1, 2):
+            for dur in (cap, cap - 1, cap - 2, cap - 5):
+                ns = [[t, 2, ctx["p"] - 20 + j, j % 4, 10 + (t + j) % 100] for t in range(lead, dur - 1, 2) for j in range(v)]
+                deep = [cap // 4, cap // 2, 3 * cap // 4, dur - 1]
+                evs = [[]] + [[["ts", t, conflict[0], conflict[1]]] for t in deep] + \
+                      [[["ts", 0, n, d], ["ts", t, conflict[0], conflict[1]]] for t in deep[1:3]] + \
+                      [[["ts", 0, n, d], ["ts", deep[2], n, d]], [["ts", deep[1], n, d]]]
+                for ev in evs:
+                    yield {"n": n, "d": d, "dur": dur, "notes": ns, "sig": "explicit", "events": ev, "key": "Eb",
+                           "build": "abs" if (lead + len(ev)) % 2 else "rel"}
         return
     if unit[0] == "hist":
         for h in hist.hist_of_unit(unit):
@@ -107,7 +127,11 @@ def check_case(case, ctx):
         dur, notes = case["dur"], case["notes"]
         hanging = [x for x in notes if x[0] == "hang"]
         notes = [x for x in notes if x[0] != "hang"]
-        events = [] if sc == "none" else sig_events(sc, n, d)
+        events = case["events"] if "events" in case else [] if sc == "none" else sig_events(sc, n, d)
+        if len(notes) >= 100:
+            R.flags.append("dense_bar")
+            if any(e[1] >= cap // 4 for e in events):
+                R.flags.append("signature_deep_inside_a_dense_bar")
         seq = (lib.seq_abs if build == "abs" else lib.seq_rel)(notes, events, dur if dur > 0 else None)
         for _, hp_, hc_ in hanging:
             if build == "abs":
